@@ -17,6 +17,7 @@ From PowHsm Require Import Proofs.SrcEquivStateM.
 From PowHsm Require Import Proofs.SrcEquivBlockM.
 From PowHsm Require Import Proofs.SrcEquivBlockProtoM.
 From PowHsm Require Import Proofs.SrcEquivHeartbeatM.
+From PowHsm Require Import Proofs.SrcEquivParamsProtoM.
 Open Scope N_scope.
 
 (* for every request and every device script, sign answers only codes docs/protocol.md lists for sign plus the generic ones (closed check on the generated tables vs the generated doc lists) *)
@@ -379,5 +380,13 @@ Theorem C04_source_ui_heartbeat_handler_is_model :
          srcm_HSM2ProtocolLedger___ui_heartbeat init self (of_obj req) w =
          mres rtuple_pv (op_ui_heartbeat kind req w).
 Proof. exact (@srcm_ui_heartbeat_handler_ok). Qed.
+
+(* _get_blockchain_parameters as translated = model handler with its generated ladder, on every world *)
+Theorem C04_source_parameters_handler_is_model :
+  forall (kind : dongle_kind) (init : pm pv) (self request : pv) (req : obj) (w : world),
+         init_ok kind init ->
+         srcm_HSM2ProtocolLedger___get_blockchain_parameters init self request w =
+         mres rtuple_pv (op_parameters kind req w).
+Proof. exact (@srcm_parameters_handler_ok). Qed.
 
 Example C04_nonvacuous : True. Proof. exact I. Qed. (* concrete runs closed by vm_compute in Proofs/C04.v: blockchainState on Status 0x6B87 / silent device / bad opcode / 0x6F00 answers -905; sign on ERR_SIGN_INVALID_PATH answers -103; ex_error_result_escapes_* exhibit the reconnection-bring-up observation recorded in DESIGN.md *)
